@@ -396,7 +396,12 @@ func (p *queueProcessor) enqueueIfSlotAvailable(req *Request) bool {
 		return false
 	}
 
-	p.requestsWatcher.AddRequest(req)
+	if !p.requestsWatcher.AddRequestIfBelow(req, p.maxQueueSize) {
+		// Other requests took the remaining slots since the check above
+		p.logger.Debug().Str("requestID", req.GetID()).
+			Msg("Slot no longer available, dropping request")
+		return false
+	}
 
 	p.logger.Trace().Str("requestID", req.GetID()).Msg("Slot available, enqueuing")
 	if err := p.queue.Enqueue(req.GetID(), req.GetPriority()); err != nil {
